@@ -39,6 +39,12 @@ def helpers(p: Program):
     for e in p.enums:
         out.append(e.spec_fns())
         out.append(e.from_discr_fn())
+    dbg = [s for s in p.structs if s.debug]
+    if dbg:
+        from . import contracts as C
+        out.append("mod dbgspec { " + open(os.path.join(xrun.VERIF, "spec", "dbgspec.rs")).read() + " }\nuse dbgspec::Sink;\n")
+        for s in dbg:
+            out.append(C.debug_spec_fn(s))
     return "".join(out)
 
 
@@ -166,6 +172,10 @@ def body_for(p: Program, h, inp):
         return (f"    let r_ = {s.name}::builder(){''.join(calls)}.build();\n    let exp_ = {acc};\n"
                 f"    if {s.pubraw('r_')} == exp_ {{ Ok(format!(\"builder result agrees with spec {{:#x}}\", exp_)) }} "
                 f"else {{ Err(format!(\"builder result {{:#x}}, spec {{:#x}}\", {s.pubraw('r_')}, exp_)) }}")
+    if k == "debug":
+        return (f"    let s_ = {mk};\n    let got_ = format!(\"{{:?}}\", s_);\n    let mut e_ = dbgspec::Sink::new(); exp_{s.name}({u(g('in_raw'))}, false, 0, &mut e_);\n"
+                f"    let want_ = String::from_utf8_lossy(&e_.buf[..e_.len]).to_string();\n"
+                f"    if got_ == want_ {{ Ok(format!(\"Debug text is the required text: {{}}\", got_)) }} else {{ Err(format!(\"Debug prints `{{}}`, required `{{}}`\", got_, want_)) }}")
     if k in ("overwrite", "commute", "alias"):
         return None
     return None
